@@ -78,7 +78,9 @@ def oracle(case, line):
                 i += 3
         if not set(avail) <= set(offered):
             bad.append(("invented-address", "available list holds an address that is in no payload"))
-        if len(avail) < mx and not {a for a in offered if a[2] != 0} <= set(avail):
+        def is_any(a):   # sa_is_any: 0.0.0.0, :: and the v4-mapped ::ffff:0.0.0.0
+            return a[1] == 0 or (a[0] == 6 and a[1] >> 32 == 0xffff and a[1] & 0xffffffff == 0)
+        if len(avail) < mx and not {a for a in offered if a[2] != 0 and not is_any(a)} <= set(avail):
             bad.append(("valid-address-lost", "an address with a valid port was not retained although the list is below its maximum"))
     elif kind == "U":
         fam, other_tx = int(toks[1]), int(toks[2])
@@ -135,7 +137,7 @@ def oracle(case, line):
                 if isinstance(p, bytes):
                     want += G.ref_compact(p, 6)
                 elif isinstance(p, list):
-                    want += G.ref_normal(p, False)
+                    want += G.ref_normal(p, True)
                 if isinstance(d.get(b"peers6"), bytes):
                     want += G.ref_compact(d[b"peers6"], 18)
                 if arg != G.show_addrs(want):
